@@ -100,7 +100,22 @@ pub fn install_panic_hook() {
         } else {
             "<non-string panic>".to_string()
         };
-        LAST_PANIC.with(|p| *p.borrow_mut() = Some(format!("panic at {}: {}", loc, msg)));
+        // the innermost frames of the code under test / the harness tell where it really happened
+        let bt = std::backtrace::Backtrace::force_capture().to_string();
+        let mut frames: Vec<String> = vec![];
+        let lines: Vec<&str> = bt.lines().collect();
+        for (i, l) in lines.iter().enumerate() {
+            let l = l.trim();
+            if (l.contains("ureq_proto::") || l.contains("hootverif::")) && !l.contains("infra::runner") {
+                let at = lines.get(i + 1).map(|x| x.trim().trim_start_matches("at ").to_string()).unwrap_or_default();
+                let name = l.splitn(2, ": ").nth(1).unwrap_or(l);
+                frames.push(format!("{} ({})", name, at));
+                if frames.len() >= 3 {
+                    break;
+                }
+            }
+        }
+        LAST_PANIC.with(|p| *p.borrow_mut() = Some(format!("panic at {}: {} [in {}]", loc, msg, frames.join(" <- "))));
     }));
 }
 
